@@ -159,8 +159,8 @@ CallBits(e) ==
       IN
       IF same # {}
       THEN \* "returns the id of an earlier declaration ... and adds nothing to the module"
-           LET j == CHOOSE j \in same : \A x \in same : j <= x IN
-           [bits |-> (IF SameInsts(lm, pm) /\ ReturnsId(e) /\ e.res[2] = pm.types_global_values[j].rid[1] THEN {} ELSE {2}) \cup selBits,
+           \* (which one, when several earlier declarations are identical, the property does not say)
+           [bits |-> (IF SameInsts(lm, pm) /\ ReturnsId(e) /\ \E j \in same : e.res[2] = pm.types_global_values[j].rid[1] THEN {} ELSE {2}) \cup selBits,
             next |-> next, alloc |-> alloc]
       ELSE
         LET p == Place(kind, e, opnum)
